@@ -18,6 +18,7 @@ func init() {
 	vReg("H_C01_modify", H_C01_modify)
 	vReg("H_C01_modify_long", H_C01_modify_long)
 	vReg("H_C01_modify2", H_C01_modify2)
+	vReg("H_C01_modify_pair", H_C01_modify_pair)
 	vReg("H_C01_add", H_C01_add)
 	vReg("H_C01_delete", H_C01_delete)
 	vReg("H_C01_delete2", H_C01_delete2)
@@ -521,6 +522,56 @@ func vModify(maxChanges, maxCtl int) {
 	}
 	checkControls(m.Controls, cs)
 	vReach("modify ok")
+}
+
+// two Modify requests decoded one after the other (a pipeline: the first handler still
+// holds its message while the second request is decoded): the first message keeps what
+// its client sent
+func H_C01_modify_pair() {
+	mk := func(id int64, dn string, ops []int64, typs, vals []string) *ber.Packet {
+		cseq := refSeq()
+		for i := range ops {
+			set := refSet()
+			set.AppendChild(refOctet(vals[i]))
+			mod := refSeq()
+			mod.AppendChild(refOctet(typs[i]))
+			mod.AppendChild(set)
+			ch := refSeq()
+			ch.AppendChild(refEnum(ops[i]))
+			ch.AppendChild(mod)
+			cseq.AppendChild(ch)
+		}
+		return refEnvelope(id, refApp(ApplicationModifyRequest, refOctet(dn), cseq), nil)
+	}
+	n1 := 1 + vLen("firstChanges", 1)
+	ops := []int64{vI64("op0"), vI64("op1")}[:n1]
+	typs := []string{vShort("type0"), vShort("type1")}[:n1]
+	vals := []string{vVal("val0"), vVal("val1")}[:n1]
+	for _, o := range ops {
+		vAssume(o >= 0 && o <= 3)
+	}
+	dn := vShort("dn")
+	r1, err := vDecodeWL(vWire(mk(1, dn, ops, typs, vals)), false)
+	vAssume(err == nil)
+	m1, err := r1.GetModifyMessage()
+	vAssume(err == nil)
+	n2 := 1 + vLen("secondChanges", 1)
+	r2, err := vDecodeWL(vWire(mk(2, "cn=other", []int64{2, 1}[:n2], []string{"other0", "other1"}[:n2], []string{"x", "y"}[:n2])), false)
+	vAssert(err == nil, "second modify decodes")
+	if err == nil {
+		m2, e2 := r2.GetModifyMessage()
+		vAssert(e2 == nil && m2.DN == "cn=other" && len(m2.Changes) == n2, "second modify carries its own changes")
+	}
+	vAssert(m1.DN == dn && len(m1.Changes) == n1, "the first message keeps its DN and change count")
+	for i := 0; i < n1 && i < len(m1.Changes); i++ {
+		g := m1.Changes[i]
+		vAssert(g.Operation == ops[i] && g.Modification.Type == typs[i] && len(g.Modification.Vals) == 1, "the first message keeps its operations and types while a later request is decoded")
+		if len(g.Modification.Vals) == 1 && g.Modification.Vals[0] != vals[i] {
+			un, e := ConvertString(g.Modification.Vals[0])
+			vAssert(e == nil && len(un) == 1 && un[0] == vals[i], "the first message keeps its values")
+		}
+	}
+	vReach("pair ok")
 }
 
 func H_C01_add() {
